@@ -50,7 +50,13 @@ def gen_doc(rnd, thorough):
     species = []
     for s in ids:
         v = float("%.4g" % rnd.uniform(0.5, 20)) if rnd.random() < 0.85 else 0.0
-        species.append({"id": s, "amount": v} if rnd.random() < 0.5 else {"id": s, "conc": v})
+        u = rnd.random()
+        if u < 0.3:
+            # both attributes in the file: a non-zero amount (however small) wins, an amount of exactly 0 yields to the concentration
+            a_ = rnd.choice([0.0, 0.0, 1e-9, 3e-12, 1e-8, 9.9e-9, 2e-7, float("%.4g" % rnd.uniform(0.5, 20))])
+            species.append({"id": s, "amount": a_, "conc": float("%.4g" % rnd.uniform(0.5, 20))})
+        else:
+            species.append({"id": s, "amount": v} if u < 0.65 else {"id": s, "conc": v})
     gnames = rnd.sample(["kf", "kr", "Km", "vmax", "k", "k1", "alpha", "k_r1", "k_r2", "p"], rnd.randint(2, 6))
     params = {g: float("%.4g" % rnd.uniform(0.1, 5)) for g in gnames}
     nrx = rnd.randint(1, 4)
@@ -228,6 +234,17 @@ def run_case(doc):
     try:
         path = os.path.join(tmp, "doc.xml")
         L.writeSBMLToFile(d, path)
+        both = [s_ for s_ in doc["species"] if "amount" in s_ and "conc" in s_]
+        if both:
+            # libsbml's two setters un-set each other, so the second attribute is written into the XML text
+            import re
+            txt = open(path).read()
+            for s_ in both:
+                txt, n_ = re.subn(r'(<species\b[^>]*\bid="%s"[^>]*?)(/?>)' % re.escape(s_["id"]), lambda m_: '%s initialConcentration="%r"%s' % (m_.group(1), s_["conc"], m_.group(2)), txt, count=1)
+                if n_ != 1:
+                    return {"error": "harness: could not add initialConcentration to species %s" % s_["id"]}
+            open(path, "w").write(txt)
+            C["species_with_amount_and_concentration"] += len(both)
         # re-read the written file with libsbml: the reference is evaluated on what is actually in the file
         rd = L.readSBML(path)
         rm = rd.getModel()
@@ -265,7 +282,7 @@ def run_case(doc):
         # initial values
         sd = M.get_species_dictionary()
         for s in doc["species"]:
-            exp = s.get("amount", s.get("conc"))
+            exp = s["amount"] if ("amount" in s and (s["amount"] != 0 or "conc" not in s)) else s["conc"]
             if s["id"] not in sd or float(sd[s["id"]]) != exp:
                 viol.append({"key": "C13/initial-value", "msg": "species %s: imported initial value %r, document says %r" % (s["id"], sd.get(s["id"]), s)})
         pdct = M.get_parameter_dictionary()
